@@ -259,7 +259,13 @@ type FReq struct {
 	Remote  string      `json:"remote,omitempty"`
 	Headers [][2]string `json:"headers,omitempty"` // ordered list of header fields as sent
 	Body    []byte      `json:"body,omitempty"`
+	// Chunked: the body arrives without a declared length (HTTP/1.1 chunked transfer coding or an
+	// HTTP/2 stream without content-length), as net/http's server presents it: ContentLength -1.
+	Chunked bool `json:"chunked,omitempty"`
 }
+
+// undeclaredBody hides the concrete reader type so http.NewRequest cannot infer a length.
+type undeclaredBody struct{ io.Reader }
 
 func (q FReq) build() *http.Request {
 	target := q.Path
@@ -276,6 +282,12 @@ func (q FReq) build() *http.Request {
 		r, _ = http.NewRequest("POST", "http://placeholder/", bytes.NewReader(q.Body))
 	}
 	r.Method = method
+	if q.Chunked {
+		r.Body = io.NopCloser(undeclaredBody{bytes.NewReader(q.Body)})
+		r.ContentLength = -1
+		r.TransferEncoding = []string{"chunked"}
+		r.GetBody = nil
+	}
 	r.Host = q.Host
 	r.RemoteAddr = q.Remote
 	r.RequestURI = target
